@@ -540,16 +540,24 @@ impl<const M: usize> Drv<M> {
         if kind < 30 {
             // raw layout flavours
             let lay = self.valid_layout();
-            let how = self.rng.below(3);
-            let name = ["alloc_layout", "try_alloc_layout", "allocate"][how as usize];
+            let how = self.rng.below(5);
+            let name = ["alloc_layout", "try_alloc_layout", "allocate", "allocate_zeroed", "by_ref_allocate"][how as usize];
             let desc = format!("alloc {} {} {} {}", lay.size(), lay.align(), (how != 0) as u8, name);
             self.begin(&desc);
             let infallible = how == 0;
             let b = self.bump.as_ref().unwrap();
+            // the Allocator methods return a slice: its length is the size asked for, and
+            // allocate_zeroed hands out zeroes
+            let mut slice_note: Option<String> = None;
             let r = guarded(|| match how {
                 0 => Ok(b.alloc_layout(lay).as_ptr() as usize),
                 1 => b.try_alloc_layout(lay).map(|p| p.as_ptr() as usize).map_err(|_| ()),
-                _ => (&b).allocate(lay).map(|p| p.as_ptr() as *mut u8 as usize).map_err(|_| ()),
+                2 => (&b).allocate(lay).map(|p| { if p.len() != lay.size() { slice_note = Some(format!("K bad slice length allocate {} for {}", p.len(), lay.size())); } p.as_ptr() as *mut u8 as usize }).map_err(|_| ()),
+                3 => (&b).allocate_zeroed(lay).map(|p| {
+                    if p.len() != lay.size() { slice_note = Some(format!("K bad slice length allocate_zeroed {} for {}", p.len(), lay.size())); }
+                    if lay.size() <= HUGE && unsafe { read_bytes(p.as_ptr() as *mut u8 as usize, lay.size()) }.iter().any(|x| *x != 0) { slice_note = Some("K bad allocate_zeroed not zeroed".to_string()); }
+                    p.as_ptr() as *mut u8 as usize }).map_err(|_| ()),
+                _ => { let bb = &b; let r = Allocator::by_ref(&bb); r.allocate(lay).map(|p| { if p.len() != lay.size() { slice_note = Some(format!("K bad slice length by_ref {} for {}", p.len(), lay.size())); } p.as_ptr() as *mut u8 as usize }).map_err(|_| ()) }
             });
             let _ = infallible;
             let out = match r {
@@ -564,6 +572,7 @@ impl<const M: usize> Drv<M> {
                 Err(p) => Err(p),
             };
             self.record_alloc(&desc, out);
+            if let Some(n) = slice_note { self.line(&n); }
         } else if kind < 60 {
             let how = self.rng.below(4);
             let ty = self.rng.below(12);
@@ -717,8 +726,10 @@ impl<const M: usize> Drv<M> {
             } else {
                 (&b).shrink(p, ol, nl)
             };
-            r.map(|q| q.as_ptr() as *mut u8 as usize).map_err(|_| ())
+            r.map(|q| (q.as_ptr() as *mut u8 as usize, q.len())).map_err(|_| ())
         });
+        // the slice the Allocator method hands back is as long as the new layout asks
+        let r = match r { Ok(Ok((a, l))) => { if l != nsize { self.line(&format!("K bad slice length {} {} for {}", if grow { "grow" } else { "shrink" }, l, nsize)); } Ok(Ok(a)) } Ok(Err(())) => Ok(Err(())), Err(p) => Err(p) };
         match r {
             Ok(Ok(a)) => {
                 self.blks[i].live = false;
